@@ -106,7 +106,7 @@ Worst(S) == IF "refuse" \in S THEN "refuse"
 
 \* class of committing to one polynomial
 CommitClass1(s, maxdeg, nv, keys, p, rng) ==
-  LET r == (IF AlwaysBlinds(s) /\ ~rng THEN "any" ELSE "ok") IN
+  LET r == (IF AlwaysBlinds(s) /\ ~rng THEN "refuse" ELSE "ok") IN     \* always-hiding schemes need the RNG
   Worst({BoundClass(s, maxdeg, keys, p), HidingClass(s, keys, p, rng),
          SizeClass(s, nv, keys, p), r})
 
